@@ -163,8 +163,15 @@ class StringSetEvaluator:
         if isinstance(st, ast.Assign) and len(st.targets) == 1 and isinstance(st.targets[0], ast.Name):
             env[st.targets[0].id] = self.evalset(m, st.value, env)
         elif isinstance(st, ast.Assign) and len(st.targets) == 1 and isinstance(st.targets[0], (ast.Tuple, ast.List)):
-            vals = self.evalset(m, st.value, env)
-            self.bind(st.targets[0], vals, env)
+            tgt = st.targets[0]
+            if isinstance(st.value, (ast.Tuple, ast.List)) and len(st.value.elts) == len(tgt.elts) and not any(isinstance(e, ast.Starred) for e in list(st.value.elts) + list(tgt.elts)):
+                # `a, b = X, Y`: element by element (one unfoldable element must not hide the others)
+                vals_each = [self.evalset(m, e, env) for e in st.value.elts]
+                for t, vs in zip(tgt.elts, vals_each):
+                    self.bind(t, vs, env)
+            else:
+                vals = self.evalset(m, st.value, env)
+                self.bind(tgt, vals, env)
         elif isinstance(st, ast.AnnAssign) and isinstance(st.target, ast.Name) and st.value is not None:
             env[st.target.id] = self.evalset(m, st.value, env)
         elif isinstance(st, ast.AugAssign) and isinstance(st.target, ast.Name):
